@@ -50,6 +50,9 @@ func verifSetFreezeRealTimers(b bool) { verifFreezeRealTimers = b }
 do("proc.go", [
     ("const forcePreemptNS = 10 * 1000 * 1000 // 10ms", "const forcePreemptNS = 3600 * 1000 * 1000 * 1000 // verif: 1h"),
     ("func execute(gp *g, inheritTime bool) {\n\tmp := getg().m\n", "func execute(gp *g, inheritTime bool) {\n\tverifExecTicks++\n\tmp := getg().m\n"),
+    # a registered goroutine that wakes another one (cond signal, channel send, unlock of a contended mutex) may lose the
+    # processor to it at once, as happens when the woken goroutine starts on another core
+    ("\trunqput(mp.p.ptr(), gp, next)\n\twakep()\n\treleasem(mp)\n}\n\n// freezeStopWait is", "\trunqput(mp.p.ptr(), gp, next)\n\twakep()\n\tif verifPreemptN != 0 {\n\t\tverifWakePreempt(mp)\n\t}\n\treleasem(mp)\n}\n\n// freezeStopWait is"),
     # a goroutine that yields (Gosched, or a seeded preemption) goes to the tail of the P's own queue, not to the
     # global queue: the global queue is looked at every 61st scheduling round, and the round counter also
     # advances for runtime goroutines that sysmon injects at wall-clock-dependent moments (scavenger)
@@ -150,6 +153,30 @@ func verifMaybePreempt() {
 			e.count++
 			gp.preempt = true
 			gp.stackguard0 = stackPreempt
+		}
+		return
+	}
+}
+
+// verifWakePreempt: called from ready() on behalf of the goroutine that runs on mp.
+func verifWakePreempt(mp *m) {
+	cur := mp.curg
+	if cur == nil {
+		return
+	}
+	id := cur.goid
+	for i := 0; i < verifPreemptN; i++ {
+		e := &verifPreemptG[i]
+		if e.goid != id {
+			continue
+		}
+		if e.period > 64 {
+			return // a goroutine that is not to be disturbed during this task
+		}
+		if verifDetNext(&e.state)&1 == 0 {
+			e.count++
+			cur.preempt = true
+			cur.stackguard0 = stackPreempt
 		}
 		return
 	}
